@@ -3,7 +3,7 @@ MultiPaxosNode, FlexiblePaxosNode, MembershipProtocol, LeaderElection x strategi
 Nodes talk through a real Network whose links have latency cfg.L."""
 from __future__ import annotations
 
-from props.c07_core import Drv, Instant
+from props.c07_core import Drv, Instant, P, R
 
 from happysimulator.components.consensus import (BullyStrategy, DistributedLock, FlexiblePaxosNode, KVStateMachine,
                                                  LeaderElection, MembershipProtocol, MultiPaxosNode, PaxosNode,
@@ -117,7 +117,7 @@ class _MultiLeaderDrv(_RpcDrv):
     def build(self, cfg):
         self.net = Network(name="net")
         self.leaders = [LeaderNode(f"leader-{r}", store=_kv(f"store-{r}", cfg), network=self.net,
-                                   conflict_resolver=self.resolver(), anti_entropy_interval=1.0)
+                                   conflict_resolver=self.resolver(), anti_entropy_interval=P(1.0))
                         for r in ("east", "west")]
         for ld in self.leaders:
             ld.add_peers([x for x in self.leaders if x is not ld])
@@ -153,7 +153,7 @@ class RaftDrv(Drv):
     def build(self, cfg):
         self.net = Network(name="net")
         self.nodes = [RaftNode(name=f"raft-{j}", network=self.net, state_machine=KVStateMachine(),
-                               election_timeout_min=1.0, election_timeout_max=2.0, heartbeat_interval=0.5)
+                               election_timeout_min=P(1.0), election_timeout_max=P(2.0), heartbeat_interval=P(0.5))
                       for j in range(3)]
         for n in self.nodes:
             n.set_peers(self.nodes)
@@ -165,7 +165,7 @@ class RaftDrv(Drv):
         for n in self.nodes:
             evs.extend(n.start())
         # a late wave of client commands, after a leader had time to emerge
-        evs.append(self.h.ev(self.h.caller, "late", {"metadata": {"late": True}}, delay=5.0))
+        evs.append(self.h.ev(self.h.caller, "late", {"metadata": {"late": True}}, delay=P(5.0)))
         return evs
 
     def on_caller_event(self, event):
@@ -192,7 +192,7 @@ class PaxosDrv(Drv):
 
     def build(self, cfg):
         self.net = Network(name="net")
-        self.nodes = [PaxosNode(name=f"paxos-{j}", network=self.net, retry_delay=0.5) for j in range(3)]
+        self.nodes = [PaxosNode(name=f"paxos-{j}", network=self.net, retry_delay=P(0.5)) for j in range(3)]
         for n in self.nodes:
             n.set_peers(self.nodes)
         _mesh(self.net, self.nodes, cfg)
@@ -233,7 +233,7 @@ class MultiPaxosDrv(_LogPaxosDrv):
 
     def make(self, j):
         return MultiPaxosNode(name=f"mp-{j}", network=self.net, state_machine=KVStateMachine(),
-                              leader_lease_timeout=2.0, heartbeat_interval=0.5)
+                              leader_lease_timeout=P(2.0), heartbeat_interval=P(0.5))
 
 
 class FlexiblePaxosDrv(_LogPaxosDrv):
@@ -241,7 +241,7 @@ class FlexiblePaxosDrv(_LogPaxosDrv):
 
     def make(self, j):
         return FlexiblePaxosNode(name=f"fp-{j}", network=self.net, state_machine=KVStateMachine(),
-                                 phase1_quorum=3, phase2_quorum=1, heartbeat_interval=0.5)
+                                 phase1_quorum=3, phase2_quorum=1, heartbeat_interval=P(0.5))
 
 
 class MembershipDrv(Drv):
@@ -254,7 +254,7 @@ class MembershipDrv(Drv):
 
     def build(self, cfg):
         self.net = Network(name="net")
-        self.ms = [MembershipProtocol(name=f"m{j}", network=self.net, probe_interval=0.5, suspicion_timeout=1.0,
+        self.ms = [MembershipProtocol(name=f"m{j}", network=self.net, probe_interval=P(0.5), suspicion_timeout=P(1.0),
                                       indirect_probe_count=1, phi_threshold=2.0) for j in range(3)]
         for a in self.ms:
             for b in self.ms:
@@ -288,8 +288,8 @@ class _ElectionDrv(Drv):
 
     def build(self, cfg):
         self.net = Network(name="net")
-        self.es = [LeaderElection(name=f"e{j}", network=self.net, strategy=self.strategy(), election_timeout=1.0,
-                                  heartbeat_interval=0.5) for j in range(3)]
+        self.es = [LeaderElection(name=f"e{j}", network=self.net, strategy=self.strategy(), election_timeout=P(1.0),
+                                  heartbeat_interval=P(0.5)) for j in range(3)]
         for a in self.es:
             for b in self.es:
                 a.add_member(b)
@@ -335,7 +335,7 @@ class DistributedLockDrv(Drv):
     ops = ("hold", "hog", "event")
 
     def build(self, cfg):
-        self.lock = DistributedLock("dlock", lease_duration=1.0, max_waiters=1)
+        self.lock = DistributedLock("dlock", lease_duration=P(1.0), max_waiters=1)
         return [self.lock]
 
     def _expiry(self):
@@ -380,7 +380,7 @@ class _CRDTDrv(_RpcDrv):
 
     def build(self, cfg):
         self.net = Network(name="net")
-        self.stores = [CRDTStore(f"crdt-{j}", network=self.net, crdt_factory=self.factory, gossip_interval=1.0)
+        self.stores = [CRDTStore(f"crdt-{j}", network=self.net, crdt_factory=self.factory, gossip_interval=P(1.0))
                        for j in range(self.n_stores)]
         for s in self.stores:
             s.add_peers([x for x in self.stores if x is not s])
